@@ -12,6 +12,8 @@ CONSTANTS
  AllowWith = FALSE
  AllowVars = TRUE
  MaxUses = 2
+ AllowFlat = FALSE
+ MoveAfterRename = FALSE
  OldWith = FALSE
  RestoreOwn = FALSE
 INVARIANTS FlagAsMeant StackDepth CaptureFree NoCollision PublicUnchanged NoReserved WithOwn WithCross Emit
